@@ -13,6 +13,8 @@
 #include <sys/syscall.h>
 #include <sys/time.h>
 #include <errno.h>
+#include <dlfcn.h>
+#include <pthread.h>
 #include "support/VerifSimHooks.h"
 
 extern "C" int __real_select(int, fd_set *, fd_set *, fd_set *, struct timeval *);
@@ -25,6 +27,7 @@ struct SimThread
 {
    int id; sem_t sem; int st; const void * waitObj; const volatile uint32_t * pending; uint64_t deadline; bool timedOut; const void * threadObj;
    bool inTimed; uint64_t apiDeadline; const char * timedTag; const std::function<bool()> * pred; int nfds; fd_set rs, ws; bool hasR, hasW; int prio; pid_t tid;
+   bool cvSignalled, cvSpurious;
 };
 static std::vector<SimThread *> g_threads; static std::mutex g_reg; static sem_t g_regSem; static bool g_regSemInit = false;
 static thread_local SimThread * t_self = NULL;
@@ -57,12 +60,12 @@ void SetInvariant(InvariantFn fn) {g_invariant = fn;}
 void ReportAndExit(const std::string & cls, const std::string & detail)
 {
    std::string d = detail + " [decisions so far: " + U(g_stats.steps) + ", threads:";
-   for (auto t : g_threads) {static const char * sn[] = {"runnable", "blocked-on-mutex", "blocked-on-cond", "blocked-on-join", "blocked-on-poll", "sleeping", "finished", "waiting-for-all", "waiting-for-harness-condition"}; d += " t" + I(t->id) + "=" + sn[t->st];}
+   for (auto t : g_threads) {static const char * sn[] = {"runnable", "blocked-on-mutex", "blocked-on-cond", "blocked-on-join", "blocked-on-poll", "sleeping", "finished", "waiting-for-all", "waiting-for-harness-condition", "blocked-in-pthread-cond-wait"}; d += " t" + I(t->id) + "=" + sn[t->st];}
    d += "; schedule (thread chosen at each decision, A = clock advanced to the earliest deadline): " + ((g_decisions.size() > 1500) ? ("..." + g_decisions.substr(g_decisions.size()-1500)) : g_decisions) + "]";
    ExitWithViolation(cls, d, g_hash.h);
 }
 
-static bool IsTimedWaiter(const SimThread * t) {return ((t->st == ST_BL_COND)||(t->st == ST_BL_POLL)||(t->st == ST_BL_SLEEP))&&(t->deadline != NO_DEADLINE);}
+static bool IsTimedWaiter(const SimThread * t) {return ((t->st == ST_BL_COND)||(t->st == ST_BL_POLL)||(t->st == ST_BL_SLEEP)||(t->st == ST_BL_CV))&&(t->deadline != NO_DEADLINE);}
 static bool PollReady(SimThread * t)
 {
    fd_set r = t->rs, w = t->ws; struct timeval z = {0, 0};
@@ -80,6 +83,7 @@ static bool Enabled(SimThread * t, bool * byTimeout)
       case ST_BL_POLL:  if (PollReady(t)) return true; break;
       case ST_BL_JOIN:  {for (size_t i=g_threads.size(); i>0; i--) if (g_threads[i-1]->threadObj == t->waitObj) return (g_threads[i-1]->st == ST_FINISHED); return true;}   // the LATEST incarnation of that Thread object (it may have been restarted)
       case ST_BL_SLEEP: break;
+      case ST_BL_CV:    if ((t->cvSignalled)||(t->cvSpurious)) return true; break;
       case ST_BL_PRED:  return (t->pred == NULL)||((*t->pred)());
       case ST_BL_ALL:   {for (auto x : g_threads) if ((x != t)&&(x->st != ST_FINISHED)) return false; return true;}
       default: return false;
@@ -159,7 +163,7 @@ static void Schedule(const char * hook)
    if (next == NULL)
    {
       std::string d = "no thread can run and no timed wait is pending:";
-      for (auto t : g_threads) {char b[96]; static const char * sn[] = {"runnable", "mutex", "cond", "join", "poll", "sleep", "finished", "all-others-finished", "harness-condition"}; snprintf(b, sizeof(b), " t%d blocked-on(%s)", t->id, sn[t->st]); if (t->st != ST_FINISHED) d += b;}
+      for (auto t : g_threads) {char b[96]; static const char * sn[] = {"runnable", "mutex", "cond", "join", "poll", "sleep", "finished", "all-others-finished", "harness-condition", "pthread-cond"}; snprintf(b, sizeof(b), " t%d blocked-on(%s)", t->id, sn[t->st]); if (t->st != ST_FINISHED) d += b;}
       ReportAndExit("deadlock", d);
    }
    if (nextByTimeout) {next->timedOut = true; g_stats.timeoutsFired++;}
@@ -226,7 +230,7 @@ static void HYield(int kind, const void *)
 static void RegisterSelf(const void * threadObj)
 {
    SimThread * t = new SimThread(); sem_init(&t->sem, 0, 0); t->st = ST_RUNNABLE; t->waitObj = NULL; t->pending = NULL; t->threadObj = threadObj; t->deadline = NO_DEADLINE; t->timedOut = false;
-   t->inTimed = false; t->apiDeadline = 0; t->timedTag = NULL; t->pred = NULL; t->nfds = 0; t->hasR = t->hasW = false; t->tid = (pid_t) syscall(SYS_gettid);
+   t->cvSignalled = t->cvSpurious = false; t->inTimed = false; t->apiDeadline = 0; t->timedTag = NULL; t->pred = NULL; t->nfds = 0; t->hasR = t->hasW = false; t->tid = (pid_t) syscall(SYS_gettid);
    {std::lock_guard<std::mutex> g(g_reg); t->id = (int) g_threads.size(); t->prio = (int) g_userRng.below(1000); g_threads.push_back(t); if (g_threads.size() > g_stats.maxThreads) g_stats.maxThreads = g_threads.size();}
    t_self = t;
 }
@@ -237,6 +241,7 @@ static void HThreadJoin(const void * obj) {SimThread * me = t_self; if (!me) ret
 static uint64_t g_randState = 99;
 static bool HRand32(uint32_t * r) {*r = (uint32_t)(SplitMix(g_randState) >> 32); return true;}
 static bool HRand64(uint64_t * r) {*r = SplitMix(g_randState); return true;}
+static MuscleVerifSimHooks g_hooksInUse;
 static MuscleVerifSimHooks g_hooks = {HMutexLock, HMutexTryLock, HMutexUnlock, HCondWait, HCondNotify, HYield, HThreadCreated, HThreadBegin, HThreadEnd, HThreadJoin, HRand32, HRand64};
 
 void Begin(const SchedConfig & cfg)
@@ -247,7 +252,8 @@ void Begin(const SchedConfig & cfg)
    g_pctChangePoints.clear(); {Rng pr(cfg.schedSeed, "pct"); for (int i=0; i<cfg.pctDepth; i++) g_pctChangePoints.push_back(1 + (int) pr.below((uint32_t) (cfg.pctSteps > 1 ? cfg.pctSteps : 2)));}
    g_active = true;
    RegisterSelf(NULL);
-   g_muscleVerifSim = &g_hooks;
+   g_hooksInUse = g_hooks; if (cfg.realCv) {g_hooksInUse.condWait = NULL; g_hooksInUse.condNotify = NULL;}
+   g_muscleVerifSim = &g_hooksInUse;
 }
 void End() {g_muscleVerifSim = NULL; g_active = false; t_self = NULL; g_invariant = NULL;}
 void Spawn(const std::function<void()> & fn)
@@ -301,6 +307,39 @@ static void SimSleepUntil(uint64_t when)
    Schedule("sleep");
 }
 
+
+// ---- pthread condition variables underneath std::condition_variable (realCv mode).  The calling thread holds the (real) mutex m; nobody is ever
+// parked while holding such a mutex (there is no hook point inside WaitCondition's critical sections), so the real lock/unlock below never block.
+static int SimCvWait(pthread_cond_t * c, pthread_mutex_t * m, uint64_t deadline)
+{
+   SimThread * me = t_self;
+   if ((me->inTimed)&&(deadline > me->apiDeadline))
+   {
+      char b[256]; snprintf(b, sizeof(b), "t%d blocks on a condition with %s although the enclosing timed/try call's deadline is %llu (now %llu)", me->id, (deadline == NO_DEADLINE) ? "no deadline" : "a later deadline", (unsigned long long) me->apiDeadline, (unsigned long long) g_now);
+      ReportAndExit(std::string("timed_") + (me->timedTag ? me->timedTag : "call") + "_waits_beyond_deadline", b);
+   }
+   g_stats.cvWaits++;
+   me->st = ST_BL_CV; me->waitObj = c; me->cvSignalled = false; me->deadline = deadline; me->timedOut = false;
+   me->cvSpurious = ((g_cfg.pSpuriousCvPct > 0)&&((int) g_rng.below(100) < g_cfg.pSpuriousCvPct)&&(g_replayPos >= g_cfg.replay.size()));
+   if (me->cvSpurious) g_stats.cvSpurious++;
+   (void) pthread_mutex_unlock(m);
+   Schedule("cv-wait");
+   (void) pthread_mutex_lock(m);
+   const bool timedOut = (me->timedOut)&&(!me->cvSignalled);
+   me->cvSignalled = me->cvSpurious = false;
+   return timedOut ? ETIMEDOUT : 0;
+}
+static void SimCvWake(pthread_cond_t * c, bool all)
+{
+   std::vector<SimThread *> ws; for (auto t : g_threads) if ((t->st == ST_BL_CV)&&(t->waitObj == (const void *) c)&&(!t->cvSignalled)) ws.push_back(t);
+   g_stats.cvSignals++; if (ws.empty()) {g_stats.cvSignalsNoWaiter++; return;}
+   if (all) {for (auto t : ws) t->cvSignalled = true; g_hash.u(0xB0 + ws.size()); return;}
+   const size_t k = (ws.size() > 1) ? (size_t) g_rng.below((uint32_t) ws.size()) : 0;   // which waiter a signal wakes is the implementation's choice
+   ws[k]->cvSignalled = true; g_hash.u(0xC0 + (uint64_t) ws[k]->id);
+}
+static bool SimCvActive() {return (t_self != NULL)&&(g_active)&&(g_muscleVerifSim != NULL);}
+static uint64_t TsToUs(const struct timespec * ts) {return (uint64_t) ts->tv_sec*1000000ULL + (uint64_t)((ts->tv_nsec+999)/1000);}
+
 }} // namespace vs::thr
 
 // ---------------------------------------------------------------- libc seams (link-time wrappers) for the thrsim engine
@@ -334,4 +373,44 @@ int __wrap_select(int n, fd_set * r, fd_set * w, fd_set * e, struct timeval * tv
 }
 ssize_t __wrap_send(int fd, const void * b, size_t n, int f) {if ((t_self)&&(g_muscleVerifSim)) Schedule("send"); return __real_send(fd, b, n, f);}
 ssize_t __wrap_recv(int fd, void * b, size_t n, int f) {if ((t_self)&&(g_muscleVerifSim)) Schedule("recv"); return __real_recv(fd, b, n, f);}
+
+// Symbol interposition (not --wrap): these are called from inside libstdc++.so (std::condition_variable::wait / notify_one / notify_all,
+// std::chrono::steady_clock::now) as well as from header-inline code, and the executable's definition wins the dynamic lookup for both.
+// Outside a simulated run, or on a thread the scheduler does not own, the real implementation is called.
+typedef int (*CondWaitFn)(pthread_cond_t *, pthread_mutex_t *);
+typedef int (*CondClockWaitFn)(pthread_cond_t *, pthread_mutex_t *, clockid_t, const struct timespec *);
+typedef int (*CondTimedWaitFn)(pthread_cond_t *, pthread_mutex_t *, const struct timespec *);
+typedef int (*CondFn)(pthread_cond_t *);
+static void * RealSym(const char * name) {void * p = dlvsym(RTLD_NEXT, name, "GLIBC_2.3.2"); if (p == NULL) p = dlsym(RTLD_NEXT, name); return p;}
+int pthread_cond_wait(pthread_cond_t * c, pthread_mutex_t * m)
+{
+   if (SimCvActive()) return SimCvWait(c, m, NO_DEADLINE);
+   static CondWaitFn real = (CondWaitFn) RealSym("pthread_cond_wait"); return real(c, m);
+}
+int pthread_cond_clockwait(pthread_cond_t * c, pthread_mutex_t * m, clockid_t id, const struct timespec * ts)
+{
+   if (SimCvActive()) {const uint64_t t = TsToUs(ts); const uint64_t off = ((id == CLOCK_REALTIME)||(id == CLOCK_REALTIME_COARSE)) ? kWallOffsetUs : 0; return SimCvWait(c, m, (t > off) ? (t-off) : 0);}
+   static CondClockWaitFn real = (CondClockWaitFn) dlsym(RTLD_NEXT, "pthread_cond_clockwait"); return real(c, m, id, ts);
+}
+int pthread_cond_timedwait(pthread_cond_t * c, pthread_mutex_t * m, const struct timespec * ts)
+{
+   if (SimCvActive()) {const uint64_t t = TsToUs(ts); return SimCvWait(c, m, (t > kWallOffsetUs) ? (t-kWallOffsetUs) : 0);}   // CLOCK_REALTIME unless the condattr says otherwise (muscle's C++11 branch never uses this entry point)
+   static CondTimedWaitFn real = (CondTimedWaitFn) RealSym("pthread_cond_timedwait"); return real(c, m, ts);
+}
+int pthread_cond_signal(pthread_cond_t * c)
+{
+   if (SimCvActive()) {SimCvWake(c, false); return 0;}
+   static CondFn real = (CondFn) RealSym("pthread_cond_signal"); return real(c);
+}
+int pthread_cond_broadcast(pthread_cond_t * c)
+{
+   if (SimCvActive()) {SimCvWake(c, true); return 0;}
+   static CondFn real = (CondFn) RealSym("pthread_cond_broadcast"); return real(c);
+}
+// std::chrono::steady_clock::now() (inside libstdc++.so) computes WaitCondition's absolute wake-up time: it must read the simulated clock too
+int clock_gettime(clockid_t id, struct timespec * ts)
+{
+   if (SimCvActive()) return __wrap_clock_gettime(id, ts);
+   return (int) syscall(SYS_clock_gettime, id, ts);
+}
 }
